@@ -231,6 +231,17 @@ def work(task):
       for mtext in shared_mains:
         stats['files'] += 1
         outcomes.add(compare(mtext, stats, viol, import_root=root, kind='imports'))
+      # layout of the import statement itself: noise at each of its token boundaries
+      imp = ['import', ' ', 'a.util.Val', ' ', 'as', ' ', 'V1', ';']
+      for i in range(len(imp) + 1):
+        for nz in (' ', '  ', '\n', '\t', '/* c */', ' # c\n'):
+          if i in (0,) and nz.strip(): pass
+          mtext = ''.join(imp[:i]) + nz + ''.join(imp[i:]) + '\nT(x) :- V1(x);\n'
+          stats['files'] += 1
+          outcomes.add(compare(mtext, stats, viol, import_root=root, kind='import-layout'))
+      for mtext in ('import a.util.Val;import b.util.Val as W;T(x) :- Val(x) | W(x);', 'import a.util.Val ;\nT(x) :- Val(x);', '  import a.util.Val;\n\nT(x) :- Val(x);', 'T(x) :- Val(x);\nimport a.util.Val;'):
+        stats['files'] += 1
+        outcomes.add(compare(mtext, stats, viol, import_root=root, kind='import-layout'))
       for rep in range(2):
         for k in range(4):
           for mtext in mains:
